@@ -14,7 +14,7 @@ LEVEL = "exploration"
 RULE = ("every sequence of 1..3 batches x 1..2 fresh designs per batch, n in {1,2,3} parameters, m in {1,2} objectives, per-axis tolerances "
         "from {0.5,0.25,1e-3}, four objective shapes, min and max: after EVERY batch, for EVERY design evaluated so far: 2n neighbours at "
         "+-tol, m+1 costs, sensitivity = sum |f0(x)-f0(neighbour)|, each vector evaluated once overall, earlier designs untouched, also when single objective calls fail transiently (design or neighbour re-sampled); "
-        "gradient evaluator: forward quotient with step 1e-4, n extra calls, work lists empty; runs: EpsMOEA/NSGA-II N in {2,3}, G in "
+        "gradient evaluator: forward quotient with step 1e-4 (also at coordinates of magnitude 2e4..2.5e6 and with 4-6 parameters), n extra calls, work lists empty; runs: EpsMOEA/NSGA-II N in {2,3}, G in "
         "{2,3} with the worst-case evaluator, every random decision/pick flipped (<=1 deviation). Non-trivial = more than one batch or "
         "more than one design; distinct = distinct case tuples / choice sequences.")
 ASSUMPTIONS = ["one evaluator instance per algorithm, as Algorithm.__init__ creates it",
@@ -42,6 +42,8 @@ def objective(shape, m):
 
 
 def designs(n, count, offset):
+    if offset >= 1e3:      # large-magnitude coordinates (frequencies, current densities, ...)
+        return [[offset * (1.0 + 0.25 * k) + 7.0 * i for i in range(n)] for k in range(count)]
     return [[0.3 + 0.7 * k + 0.11 * i + offset for i in range(n)] for k in range(count)]
 
 
@@ -132,17 +134,17 @@ def check_worst(n, m, tols, shape, crit, batches, fail_calls=()):
     return out
 
 
-def check_gradient(n, shape, crit, batches):
+def check_gradient(n, shape, crit, batches, magnitude=0.0):
     from artap.algorithm import Algorithm, EvaluatorType
     from artap.individual import Individual
     from .c_support import make_problem, reset_ids
     reset_ids()
     f = objective(shape, 1)
-    problem = make_problem(n_params=n, bounds=[[-5.0, 5.0]] * n, criteria=[crit], f=f)
+    problem = make_problem(n_params=n, bounds=[[-5.0, 5.0]] * n if not magnitude else [[-1e8, 1e8]] * n, criteria=[crit], f=f)
     alg = Algorithm(problem, evaluator_type=EvaluatorType.GRADIENT)
     out = []
-    desc = "gradient n=%d shape=%s crit=%s batches=%r" % (n, shape, crit, batches)
-    offset = 0.0
+    desc = "gradient n=%d shape=%s crit=%s batches=%r magnitude=%r" % (n, shape, crit, batches, magnitude)
+    offset = magnitude
     total = 0
     for b, count in enumerate(batches):
         batch = [Individual(v) for v in designs(n, count, offset)]
@@ -241,6 +243,11 @@ def _shard(shard, col: Collector):
                             for fc in fcs:
                                 rec("worst", {"n": n, "m": m, "tols": tols, "shape": shape, "crit": crit, "batches": bs, "fail_calls": fc},
                                     check_worst(n, m, tols, shape, crit, bs, fc), True)
+        if n == 3 and m == 1:
+            for nn in (4, 5):
+                for bs in ((3, 3), (1, 1, 1, 1), (2, 2, 2)):
+                    rec("worst", {"n": nn, "m": 2, "tols": (0.25,) * nn, "shape": "linear", "crit": "minimize", "batches": bs},
+                        check_worst(nn, 2, (0.25,) * nn, "linear", "minimize", bs), True)
         col.sample({"kind": "worst-case", "n": n, "m": m, "tols": list(TOLS[:n]), "batches": [2, 1, 2]}, 1)
     elif kind == "grad":
         for n in (1, 2, 3):
@@ -251,6 +258,12 @@ def _shard(shard, col: Collector):
                     for bs in batch_seqs:
                         rec("grad", {"n": n, "shape": shape, "crit": crit, "batches": bs}, check_gradient(n, shape, crit, bs),
                             len(bs) > 1 or bs[0] > 1)
+                    for mag in (2.0e4, 2.5e6, -3.0e5):
+                        rec("grad", {"n": n, "shape": shape, "crit": crit, "batches": (2,), "magnitude": mag},
+                            check_gradient(n, shape, crit, (2,), mag), True)
+        for n in (4, 5, 6):         # more parameters, more and larger batches
+            for bs in ((3, 3), (1, 1, 1, 1), (4,)):
+                rec("grad", {"n": n, "shape": "linear", "crit": "minimize", "batches": bs}, check_gradient(n, "linear", "minimize", bs), True)
         col.sample({"kind": "gradient", "n": 2, "shape": "sumsq", "batches": [1, 2]}, 1)
     elif kind == "run":
         _, name, N, G, seed = shard
@@ -267,7 +280,7 @@ def replay(sub, case):
         return check_worst(case["n"], case["m"], tuple(case["tols"]), case["shape"], case["crit"], tuple(case["batches"]),
                            tuple(case.get("fail_calls", ())))
     if sub == "grad":
-        return check_gradient(case["n"], case["shape"], case["crit"], tuple(case["batches"]))
+        return check_gradient(case["n"], case["shape"], case["crit"], tuple(case["batches"]), case.get("magnitude", 0.0))
     if sub == "run":
         ctx, out = run_once(run_body_factory(case["name"], case["N"], case["G"], case["seed"]), case["choices"])
         return out
